@@ -662,8 +662,14 @@ def to_matched_score(
         if (a["label"] == "match" and a["score_id"] in part_by_id)
     ]
     ms = []
-    # sort according to onset (primary) and pitch (secondary)
-    pitch_onset = [(sn["pitch"].item(), sn["onset_div"].item()) for sn, _ in note_pairs]
+    # sort according to onset (primary) and pitch (secondary); notes with the
+    # same onset and pitch keep their order in the score note array, which is
+    # the order in which decode_performance pairs parameters with score notes
+    na_index = dict((nid, i) for i, nid in enumerate(na["id"]))
+    pitch_onset = [
+        (na_index[sn["id"].item()], sn["pitch"].item(), sn["onset_div"].item())
+        for sn, _ in note_pairs
+    ]
     sort_order = np.lexsort(list(zip(*pitch_onset)))
     snote_ids = []
     for i in sort_order:
